@@ -8,7 +8,9 @@
    non-polynomial differentiable operators Abs Sqrt Exp Log Tanh Sigmoid Softplus Sin Cos Tan,
    DivideConstR/L PowConstR/L PReLU ELU ReLU LReLU, PowN, Divide, Pow, whose element formulas are
    the GENERATED fw_<op> / bw_<op> of Gen/ScalarGen.v (regenerated from the C++ on every run),
-   and Max / Min along an axis (first extremal index, as max_bw's `break`).
+   Max / Min along an axis (first extremal index, as max_bw's `break`), and the softmax family
+   LogSumExp, SoftmaxCrossEntropy, SparseSoftmaxCrossEntropy (Tensor/AdjSoftmax.v: their BACKWARD
+   bodies are compositions of forward kernels).
 
    Three layers, kept separate:
    (1) adjointness (algebra, unconditional): C01_real_local_adjoint, C01_real_backward_is_adjoint.
@@ -17,22 +19,25 @@
    (2) the jvp IS the derivative (analysis): C01_real_jvp_is_derivative, for every operator of
        real_family except stop_gradient, on the operator's smooth domain real_dom (x > 0 for
        log / sqrt / pow base, cos x <> 0 for tan, x <> 0 for abs / prelu / elu / relu / k/x /
-       pown, divisor <> 0, every maximum / minimum attained exactly once), along ANY
-       differentiable curve of operand values; citing d_<op> of Scalar/Deriv.v, d_pown of
-       Scalar/Pown.v.
+       pown, divisor <> 0, every maximum / minimum attained exactly once, and for the dense
+       SoftmaxCrossEntropy: the target sums to 1 along the axis), along ANY differentiable curve
+       of operand values; citing d_<op> of Scalar/Deriv.v, d_pown of Scalar/Pown.v.
+       Known finding D11 is reproduced as a theorem: without sum t = 1 the dense SCE backward
+       is NOT the derivative (C01_real_sce_backward_refuted; the exact defect term is
+       (sum_axis t - 1) * sum_axis(softmax(x) * dx), C01_real_sce_derivative_general).
    (3) the two together, by induction over the tape with the chain rule:
        C01_real_tangent_is_derivative and C01_real_backward_computes_derivative:
          sum_p <grad_after p - grad_before p, dp p>
            = sum over the elements i of y of  d/dt y_i(p + t dp) at t = 0
        for every tape without stop_gradient whose operands lie in the smooth domains
        (real_smooth), y(p) being the pure forward evaluation of the tape at parameters p.
-   Not covered: MaxPooling2D, LogSumExp, the two SoftmaxCrossEntropy operators, and the
-   Divide / Pow ...Scalar variants. *)
+   Not covered: MaxPooling2D and the Divide / Pow ...Scalar variants; the dense
+   SoftmaxCrossEntropy only for x and t of one common shape. *)
 From Coq Require Import List NArith ZArith Bool Arith Reals.
 From Coquelicot Require Import Coquelicot.
 From PV Require Import Graph.OpFamily Graph.Tape Graph.Lazy Graph.Backward Graph.TapeLemmas Graph.LazyProofs
   Graph.BackwardProofs Graph.ADProof Tensor.Kernels Tensor.Index Tensor.ProofsBilinear
-  Scalar.ScalarBase Gen.ScalarGen Tensor.AdjCore Tensor.GraphInst Tensor.GraphInstR Tensor.AdjDeriv
+  Scalar.ScalarBase Gen.ScalarGen Tensor.AdjCore Tensor.GraphInst Tensor.AdjSoftmax Tensor.GraphInstR Tensor.AdjDeriv
   Tensor.TapeDeriv Tensor.GraphInstREx.
 Import ListNotations.
 Local Open Scope R_scope.
@@ -105,6 +110,27 @@ Theorem C01_real_jvp_is_derivative_binary (b : bop) (sa sb : tshape) (x y : R ->
                 (ab_fw sa sb (ew_shape sa sb))) 0).
 Proof. exact (jvp_is_derivative_binary b sa sb x y dx dy Hok Hx Hy Hdom i). Qed.
 Print Assumptions C01_real_jvp_is_derivative_binary.
+
+(* the dense softmax cross entropy: derivative of output i = tangent + (sum_axis t - 1) * sum_axis(softmax * dx) *)
+Theorem C01_real_sce_derivative_general (sx sy : tshape) (dim : nat) (xs : R -> list (list R)) (dxs : list (list R))
+  (Hxs : forall k i, is_derive (fun t => nth i (nth k (xs t) []) 0) 0 (nth i (nth k dxs []) 0))
+  (Hok : sum_ok sx sy dim = true)
+  (i : nat) (Hi : (i < length (axis_red sx sy dim))%nat) :
+  is_derive (fun t => nth i (nth 0 (d_fw (sce_desc sx sy dim) (xs t)) []) 0) 0
+    (nth i (nth 0 (d_jvp (sce_desc sx sy dim) (xs 0) dxs) []) 0
+     + sce_corr sx sy dim (nth 0 (xs 0) []) (nth 1 (xs 0) []) (nth 0 dxs []) i).
+Proof. exact (sce_deriv_gen sx sy dim xs dxs Hxs Hok i Hi). Qed.
+Print Assumptions C01_real_sce_derivative_general.
+
+(* D11: x = (1/2, -1/4), t = (2, 0), direction dx = (1, 0): the tangent the backward is adjoint to
+   is not the derivative of the forward value *)
+Theorem C01_real_sce_backward_refuted :
+  sum_ok d11_sx d11_sy 0%nat = true /\
+  (forall k i, is_derive (fun t => nth i (nth k (d11_xs t) []) 0) 0 (nth i (nth k d11_dxs []) 0)) /\
+  ~ (forall i, is_derive (fun t => nth i (nth 0 (d_fw (sce_desc d11_sx d11_sy 0%nat) (d11_xs t)) []) 0) 0
+                         (nth i (nth 0 (d_jvp (sce_desc d11_sx d11_sy 0%nat) (d11_xs 0) d11_dxs) []) 0)).
+Proof. exact sce_backward_refuted_without_normalisation. Qed.
+Print Assumptions C01_real_sce_backward_refuted.
 
 (* (3) tape level: the propagated tangent of every node is the derivative of its forward value
    along the line p + t dp *)
